@@ -111,6 +111,13 @@ Verdict(e) ==
        \* tests see u1
        LET rb == { q \in 1..Len(e.rebind) : ~SameNodes(e.rebind[q], EvalTop(d, Tests(II)[q], Bindings[1])) } IN
        IF rb # {} THEN Viol("a prefix bound a second time keeps its first binding", [text |-> e.text, test |-> TestNames[CHOOSE q \in rb : TRUE]])
+  ELSE \* a binding that was removed again is gone: after add_ns(e, u1) ; query ; remove_ns(e) the tests answer as with no
+       \* binding at all (an error for the tests that use the prefix)
+       LET ub == { q \in 1..Len(e.unbind) :
+                     LET x == EvalTop(d, Tests(II)[q], <<>>) IN
+                     ~(IF x.t = "err" THEN e.unbind[q].t = "err" ELSE SameNodes(e.unbind[q], x)) } IN
+       IF ub # {} THEN Viol("a prefix binding removed from the context is still in force (or took others with it)",
+                            [text |-> e.text, test |-> TestNames[CHOOSE q \in ub : TRUE], observed |-> e.unbind[CHOOSE q \in ub : TRUE]])
   ELSE \* after an edit through the DOM (a namespace declaration set or removed on an ancestor, a subtree moved)
        \* every element resolves as it does in a fresh parse of the document's serialization
        \* ... and as the specification's edit actions (Namespaces!SetDecl / RemoveDecl / MoveLastUnder) prescribe,
